@@ -287,3 +287,46 @@ pub fn tricky_labels(rng: &mut Rng, k: usize) -> (Vec<f64>, &'static str) {
     }
     ((0..k).map(|j| j as f64 * 1.5).collect(), "multiples-of-1.5")
 }
+
+/// Tie-free value orders that drive a median-of-three quicksort (first / middle / last sample, pivot parked at
+/// position l+1, ranges shorter than 8 finished by insertion — the scheme of the library's `quick_argsort`) into
+/// its most lopsided partitions: with `left = true` every pivot is the second largest value of its range, so the
+/// left part shrinks by two per step and everything else lands on the right; with `left = false` every pivot is
+/// the second smallest. A sort that always defers the same side needs a stack as deep as n/2 on one of the two.
+/// Constructed by running the partition scheme on symbolic cells and fixing the outcome of every comparison.
+pub fn sort_killer(n: usize, left: bool) -> Vec<f64> {
+    let mut pos: Vec<usize> = (0..n).collect(); // pos[p] = original index of the cell now at position p
+    let mut val: Vec<Option<usize>> = vec![None; n];
+    if n < 8 {
+        return (0..n).map(|i| i as f64).collect();
+    }
+    let (mut l, mut ir) = (0usize, n - 1);
+    let (mut hi, mut lo) = (n - 1, 0usize);
+    while ir - l >= 7 {
+        let k = (l + ir) >> 1;
+        pos.swap(k, l + 1);
+        if left {
+            val[pos[ir]] = Some(hi);
+            val[pos[l + 1]] = Some(hi - 1);
+            hi -= 2;
+            // partition: i stops at ir, j at ir-1; the pivot goes to ir-1, the cell from ir-1 to l+1
+            let a = pos[l + 1];
+            pos[l + 1] = pos[ir - 1];
+            pos[ir - 1] = a;
+            ir -= 2;
+        } else {
+            val[pos[l]] = Some(lo);
+            val[pos[l + 1]] = Some(lo + 1);
+            lo += 2;
+            // partition: i stops at l+2, j at l+1; nothing moves, the right part is l+2..=ir
+            l += 2;
+        }
+    }
+    // the cells never sampled get the remaining ranks in position order
+    let mut next = lo;
+    for p in l..=ir {
+        val[pos[p]] = Some(next);
+        next += 1;
+    }
+    (0..n).map(|i| val[i].unwrap_or(0) as f64).collect()
+}
